@@ -1,13 +1,17 @@
 (** Correspondence glue for C17: one case = inputs of dcmstack.reorder_voxels + what the
-    implementation returned; [check] = the model returns exactly that. *)
+    implementation returned; [check] = the model returns exactly that.
+
+    Only what the property text talks about is compared: the output array (shape, voxels), the
+    output affine, the returned transform, "raised ValueError", and "inputs not modified".  The fourth
+    return value (ornt_trans) is not mentioned by the property and is NOT compared (its encoding may
+    change freely); neither is the dtype of the output array. *)
 From Coq Require Import List Bool Arith ZArith NArith QArith.
 From DV Require Import Common.Res Common.Str Orient.Model.
 Import ListNotations.
 Local Open Scope nat_scope.
 
 Inductive obs :=
-| ObsOk (shape : list nat) (data : list Z) (aff trans : mat) (ornt_rows : list (Z * Z))
-        (inputs_unchanged : bool)
+| ObsOk (shape : list nat) (data : list Z) (aff trans : mat) (inputs_unchanged : bool)
 | ObsErr (e : err).
 
 Record case := {
@@ -21,22 +25,14 @@ Record case := {
 Definition list_eqb {A} (eqb : A -> A -> bool) (l1 l2 : list A) : bool :=
   (length l1 =? length l2) && forallb (fun xy => eqb (fst xy) (snd xy)) (combine l1 l2).
 
-Definition ornt_row_eqb (r : ornt_row) (zz : Z * Z) : bool :=
-  match r with
-  | Some (ax, f) => Z.eqb (Z.of_nat ax) (fst zz) && Z.eqb f (snd zz)
-  | None => false
-  end.
-
 Definition run (c : case) : res (arr * mat4 * mat4 * ornt) :=
   reorder {| ashape := c_shape c; adata := c_data c |} (c_aff c) (c_code c).
 
 Definition check (c : case) : bool :=
   match run c, c_obs c with
-  | Ok (a', A', T, o), ObsOk sh d A2 T2 o2 unchanged =>
+  | Ok (a', A', T, _), ObsOk sh d A2 T2 unchanged =>
       list_eqb Nat.eqb (ashape a') sh && list_eqb Z.eqb (adata a') d &&
-      mat_eqb A' A2 && mat_eqb T T2 &&
-      (length o =? length o2) && forallb (fun rz => ornt_row_eqb (fst rz) (snd rz)) (combine o o2) &&
-      unchanged
+      mat_eqb A' A2 && mat_eqb T T2 && unchanged
   | Err e, ObsErr e' => err_eqb e e'
   | _, _ => false
   end.
